@@ -57,6 +57,14 @@ def _map(f, x):
     return f(x)
 
 
+def _boolify(a):
+    """Object array of concrete booleans -> bool array (usable as a mask); anything symbolic stays as it is."""
+    if isinstance(a, _np.ndarray) and a.dtype == object:
+        if all(isinstance(e, (bool, _np.bool_)) for e in a.flat):
+            return a.astype(bool)
+    return a
+
+
 def _is_float_dtype(dtype):
     if dtype is None or dtype is float or dtype is object:
         return True
@@ -281,7 +289,7 @@ class NPFacade(types.ModuleType):
         def f(x, y):
             return abs(x - y) <= atol + rtol * abs(y)
 
-        return _map2(f, a, b)
+        return _boolify(_map2(f, a, b))
 
     @staticmethod
     def allclose(a, b, rtol=1e-05, atol=1e-08, **kw):
@@ -337,13 +345,13 @@ class NPFacade(types.ModuleType):
     @staticmethod
     def isinf(x):
         if isinstance(x, _np.ndarray) and x.dtype == object or _has_sym(x):
-            return _map(sym_isinf, x)
+            return _boolify(_map(sym_isinf, x))
         return _np.isinf(x)
 
     @staticmethod
     def isnan(x):
         if isinstance(x, _np.ndarray) and x.dtype == object or _has_sym(x):
-            return _map(sym_isnan, x)
+            return _boolify(_map(sym_isnan, x))
         return _np.isnan(x)
 
     @staticmethod
@@ -376,7 +384,7 @@ class NPFacade(types.ModuleType):
     @staticmethod
     def isfinite(x):
         if isinstance(x, _np.ndarray) and x.dtype == object or _has_sym(x):
-            return _map(lambda e: True if is_sym(e) else _math.isfinite(e), x)
+            return _boolify(_map(lambda e: True if is_sym(e) else _math.isfinite(e), x))
         return _np.isfinite(x)
 
     @staticmethod
